@@ -102,37 +102,45 @@ Winners(S, prop) ==
        /\ \A k \in DOMAIN prop \ W : Busy(S, prop[k]) \/ \E w \in W : prop[w] = prop[k]}
 MCpu(m) == IF m = Foreign THEN Cpu(CHOOSE x \in Machines : TRUE) ELSE Cpu(m)
 MBw(m) == IF m = Foreign THEN Bw(CHOOSE x \in Machines : TRUE) ELSE Bw(m)
-(* Task.update_allocation for every proposed entry whose machine differs   *)
-(* from the recorded one                                                   *)
-UpdateAlloc(S, o, prop) ==
-    LET upd(t) ==
-          LET tk == S.tasks[t]
-              m == prop[t[2]]
-              d == MaxI(Comp(o, t[2]) \div MCpu(m), Data(o, t[2]) \div MBw(m))
-          IN IF d > tk.dur
-             THEN [tk EXCEPT !.pm = m, !.flag = TRUE, !.doff = (d - tk.dur) * K, !.dur = d]
-             ELSE [tk EXCEPT !.pm = m]
-    IN [S EXCEPT !.tasks = [t \in DOMAIN S.tasks |->
-          IF t[1] = o /\ t[2] \in DOMAIN prop /\ prop[t[2]] # S.tasks[t].pm
-          THEN upd(t) ELSE S.tasks[t]]]
+(* Task.update_allocation(machine): applied to every proposed entry whose   *)
+(* machine differs from the recorded one                                   *)
+UpdateAlloc1(S, o, k, m) ==
+    LET t == Task(o, k)
+        tk == S.tasks[t]
+        d == MaxI(Comp(o, k) \div MCpu(m), Data(o, k) \div MBw(m))
+    IN IF m = tk.pm THEN S
+       ELSE IF d > tk.dur
+       THEN [S EXCEPT !.tasks[t] = [tk EXCEPT !.pm = m, !.flag = TRUE, !.doff = (d - tk.dur) * K, !.dur = d]]
+       ELSE [S EXCEPT !.tasks[t].pm = m]
+(* the entries are processed one after the other (ord: sorted by est, ties *)
+(* in dictionary order); an entry whose machine is busy or was used earlier *)
+(* in this round is skipped and stays in the schedule; a task whose         *)
+(* predecessor was never allocated (KeyError) or that is not UNSCHEDULED    *)
+(* (RuntimeError) stops the processing with an exception                    *)
 ProcessSchedule(S, pid, prop, ord) ==
     LET o == pid[2]
-        W == SeqToSet(ord)
-        S1 == UpdateAlloc(S, o, prop)
-        keyErr == \E k \in W : \E p \in Pred(o, k) : S1.tasks[Task(o, p)].m = NoM /\ p \notin W
-        stErr == \E k \in W : S1.tasks[Task(o, k)].status # "UNSCHEDULED"
-        S2 == [S1 EXCEPT !.tasks = [t \in DOMAIN S1.tasks |->
-                  IF t[1] = o /\ t[2] \in W
-                  THEN [S1.tasks[t] EXCEPT !.status = "SCHEDULED", !.m = prop[t[2]], !.alloc = S.now] ELSE S1.tasks[t]],
-                         !.procs[pid].sched = [k \in DOMAIN prop \ W |-> prop[k]]]
-        SpawnOne(T, k) == Spawn(T, TpPid(Task(o, k)), Loc(FALSE, 0, prop[k], "", EmptyFn))
-    IN IF keyErr THEN Raise(S1, "KeyError")
-       ELSE IF stErr THEN Raise(S1, "RuntimeError")
-       ELSE FoldLeft(SpawnOne, S2, ord)
+        Step(acc, k) ==
+          IF acc.S.pend # "" THEN acc
+          ELSE LET m == prop[k]
+                   S1 == UpdateAlloc1(acc.S, o, k, m)
+               IN IF m \in acc.used \/ Busy(S1, m) THEN [acc EXCEPT !.S = S1]
+                  ELSE IF \E p \in Pred(o, k) : S1.tasks[Task(o, p)].m = NoM
+                  THEN [acc EXCEPT !.S = Raise(S1, "KeyError")]
+                  ELSE IF S1.tasks[Task(o, k)].status # "UNSCHEDULED"
+                  THEN [acc EXCEPT !.S = Raise(S1, "RuntimeError")]
+                  ELSE LET S2 == [S1 EXCEPT !.tasks[Task(o, k)] =
+                                      [@ EXCEPT !.status = "SCHEDULED", !.m = m, !.alloc = S.now],
+                                             !.procs[pid].sched = RemoveKey(@, k)]
+                       IN [S |-> Spawn(S2, TpPid(Task(o, k)), Loc(FALSE, 0, m, "", EmptyFn)),
+                           used |-> acc.used \cup {m}]
+        S0 == [S EXCEPT !.procs[pid].sched = prop]
+    IN FoldLeft(Step, [S |-> S0, used |-> {}], ord).S
 
-(* order in which the winners are handed to the cluster (dict order in the *)
-(* code); cfg.canon fixes one representative to keep model checking small *)
-Orders(W) == IF cfg.canon THEN {SetToSeq(W)} ELSE SetToSeqs(W)
+(* processing orders: every est-sorted enumeration of the proposed tasks;  *)
+(* cfg.canon fixes one representative to keep model checking small         *)
+Orders(o, D) ==
+    LET sorted == {q \in SetToSeqs(D) : \A i, j \in 1..Len(q) : i < j => EstOf(o, q[i]) <= EstOf(o, q[j])}
+    IN IF cfg.canon THEN {CHOOSE q \in sorted : TRUE} ELSE sorted
 
 (* ---- one resume of allocate_tasks --------------------------------------- *)
 (* pv: provisioning outcome, prop: what the algorithm returned, W: the     *)
@@ -182,7 +190,7 @@ ATChoices(S, pid) ==
     IN IF loc.ph = "done" \/ AlgRaises(S, o)
        THEN {[pv |-> [ok |-> FALSE, ms |-> {}], prop |-> EmptyFn, ord |-> <<>>, d |-> FALSE]}
        ELSE UNION { UNION { {[pv |-> pv, prop |-> prop, ord |-> ord, d |-> FALSE] :
-                               ord \in UNION {Orders(W) : W \in Winners(ApplyProv(S, o, pv), prop)}}
+                               ord \in Orders(o, DOMAIN prop)}
                             : prop \in Proposals(ApplyProv(S, o, pv), o, rem, pv, loc) }
                     : pv \in ProvOptions(S, o) }
 =============================================================================
